@@ -197,6 +197,7 @@ def run_case(case, agg):
     lists, h = case["lists"], case["history"]
     cps.reset_sandbox()
     cs = env.new_csvpaths()
+    observer = env.new_csvpaths()  # long-lived, only ever reads
     model = {}  # gname index -> (list index)
     changes = {}  # gname index -> number of content changes since (re)creation
     w = {"history": h}
@@ -219,7 +220,7 @@ def run_case(case, agg):
         except Exception as e:  # noqa
             w["exc"] = f"{type(e).__name__}: {str(e)[:300]}"
             return "operation-raises", w
-        for inst, who in ((cs, "same instance"), (env.new_csvpaths(), "fresh instance")):
+        for inst, who in ((cs, "same instance"), (env.new_csvpaths(), "fresh instance"), (observer, "long-lived reader instance")):
             for g in (0, 1):
                 if g in model:
                     pr = check_group(inst, GN[g], lists[model[g]], changes[g], agg, w)
